@@ -134,16 +134,21 @@ func (cx *Connection) CloseWrite() error {
 }
 
 // Wrap wraps conn in a new Connection based on cx (reusing
-// cx's existing buffer and context). This is useful after
+// cx's existing context). This is useful after
 // a connection is wrapped by a package that does not support
 // our Connection type (for example, `tls.Server()`).
+//
+// conn must read from cx (not from cx.Conn), as the values returned
+// by `tls.Server(cx, ...)` or `proxyprotocol.NewConn(cx, ...)` do: any
+// bytes still buffered in cx are then delivered by cx itself, in order,
+// when conn reads through it. For that reason the new Connection starts
+// with an empty buffer; carrying cx's buffer over would deliver those
+// bytes a second time and out of order.
 func (cx *Connection) Wrap(conn net.Conn) *Connection {
 	return &Connection{
 		Conn:         conn,
 		Context:      cx.Context,
 		Logger:       cx.Logger,
-		buf:          cx.buf,
-		offset:       cx.offset,
 		matching:     cx.matching,
 		bytesRead:    cx.bytesRead,
 		bytesWritten: cx.bytesWritten,
